@@ -116,7 +116,7 @@ def parseProg (s : String) : Option Block :=
   | _ => none
 
 def showThrown : Thrown → String
-  | .obj c s => s!"{c.name}:{s}"
+  | .obj n s => s!"{n}:{s}"
   | .internal => "internal"
 
 def showEv : Ev → String
